@@ -57,7 +57,7 @@ def fixed_keys():
             "oct16": {"kty": "oct", "k": bytes(range(16))}, "oct24": {"kty": "oct", "k": bytes(range(24))},
             "oct32": {"kty": "oct", "k": bytes(range(32))}, "oct64": {"kty": "oct", "k": bytes(range(64))},
             "RSA": {k: v for k, v in gk.rsa_pool()[2].items() if k != "bits"},
-            "P-256": gk.ec_from_d("P-256", 1234567), "P-384": gk.ec_from_d("P-384", 1234567), "P-521": gk.ec_from_d("P-521", 1234567),
+            "P-256": gk.ec_from_d("P-256", 1234567), "P-256b": gk.ec_from_d("P-256", 7654321), "P-384": gk.ec_from_d("P-384", 1234567), "P-521": gk.ec_from_d("P-521", 1234567),
             "secp256k1": gk.ec_from_d("secp256k1", 1234567),
             "Ed25519": gk.okp_from_seed("Ed25519", bytes(range(32))), "Ed448": gk.okp_from_seed("Ed448", bytes(range(57))),
             "X25519": gk.okp_from_seed("X25519", bytes(range(32))), "X448": gk.okp_from_seed("X448", bytes(range(56))),
@@ -129,7 +129,7 @@ member_value = {
     "crit": st.one_of(st.lists(st.sampled_from(jsonv.HEADER_NAMES), max_size=3), st.lists(anyv, max_size=3), anyv),
     "b64": st.one_of(st.booleans(), anyv), "epk": st.one_of(epk_like, valid_epk_plus), "apu": st.one_of(b64ish, anyv), "apv": st.one_of(b64ish, anyv),
     "p2s": st.one_of(b64ish, anyv), "p2c": p2c_like, "iv": st.one_of(b64ish, anyv), "tag": st.one_of(b64ish, anyv),
-    "kid": st.one_of(st.sampled_from(["oct32", "RSA", "P-256", "X25519", "nope"]), anyv), "skid": st.one_of(st.text(max_size=5), anyv),
+    "kid": st.one_of(st.sampled_from(["oct32", "RSA", "P-256", "X25519", "nope"]), anyv), "skid": st.one_of(st.sampled_from(["oct32", "RSA", "P-256", "X25519", "Ed25519", "P-384", "nope"]), st.text(max_size=5), anyv),
     "jwk": st.one_of(epk_like, valid_epk_plus), "jku": st.one_of(st.just("https://a/b"), anyv), "x5c": st.one_of(st.lists(st.text(max_size=4), max_size=2), anyv),
     "typ": anyv, "cty": anyv, "x5u": anyv, "x5t": anyv, "x5t#S256": anyv,
 }
@@ -223,6 +223,10 @@ def _valid_tokens():
         from joserfc import rfc7797
         for alg, kn in [("HS256", "oct32"), ("ES256", "P-256"), ("RS256", "RSA"), ("EdDSA", "Ed448")]:
             out.append(("jws", rfc7797.serialize_compact({"alg": alg, "kid": kn, "b64": False, "crit": ["b64"]}, "a1-b_c~", K[kn], algorithms=ALL_JWS)))
+        # ECDH-1PU: the sender key is named by skid and may be looked up in a key set
+        out.append(("jwe", jwe.encrypt_compact({"alg": "ECDH-1PU", "enc": "A128GCM", "skid": "P-256b"}, b'{"a":1}', K["P-256"], algorithms=jweplan.ALL_NAMES, sender_key=K["P-256b"])))
+        out.append(("jwe", jwe.encrypt_compact({"alg": "ECDH-1PU+A128KW", "enc": "A128CBC-HS256", "skid": "P-256b"}, b'{"a":1}', K["P-256"], algorithms=jweplan.ALL_NAMES,
+                                               sender_key=K["P-256b"])))
     return out
 
 
@@ -240,8 +244,8 @@ def valid_tokens():
 
 @st.composite
 def g3_mutated(draw):
-    idx = draw(st.integers(0, 18))
-    edit = draw(st.sampled_from(["set", "set", "set", "alg-swap", "alg-swap", "segment", "drop", "header-nonobject", "nested-set", "nested-set"]))
+    idx = draw(st.integers(0, 20))
+    edit = draw(st.sampled_from(["set", "set", "set", "alg-swap", "alg-swap", "segment", "drop", "header-nonobject", "nested-set", "nested-set", "skid-set"]))
     name = draw(st.sampled_from(sorted(member_value) + ["alg", "enc", "alg", "epk", "zip", "p2c", "crit"]))
     value = draw(st.one_of(member_value[name], member_value[name], anyv))
     if edit == "alg-swap":
@@ -250,6 +254,11 @@ def g3_mutated(draw):
     seg_i = draw(st.integers(0, 4))
     seg_v = draw(seg_any)
     out = {"gen": "G3", "idx": idx, "edit": edit, "name": name, "value": _tame(value), "seg_i": seg_i, "seg_v": seg_v}
+    if edit == "skid-set":
+        # an ECDH-1PU token whose skid names another entry of the sender key set
+        out["idx"] = draw(st.sampled_from([19, 20]))
+        out["edit"], out["name"] = "set", "skid"
+        out["value"] = draw(st.sampled_from(["RSA", "oct32", "oct16", "Ed25519", "X25519", "P-384", "P-256", "P-256b", "nope", 5, None, ["P-256b"]]))
     if edit == "nested-set":
         # a member of an embedded key (epk) gets a hostile value; tokens that carry an epk are preferred
         out["idx"] = draw(st.sampled_from([9, 10, 14, 9, 10, 14, idx]))
@@ -525,7 +534,8 @@ def calls_for(kind, token, hdr, keychoice, reg):
     K = fixed_keys()
     key = key_for_header(hdr or {}, keychoice)
     js, je = registries(reg)
-    sender = K["obj"]["P-256"] if keychoice % 2 else None
+    # the sender key (ECDH-1PU): none, one key, or the whole key set (the token's skid then picks the entry)
+    sender = [None, K["obj"]["P-256b"], K["set"], K["set"]][(keychoice // 4) % 4]
     out = []
     if kind in ("jws", "raw", "jwt-jws"):
         out += [("jws.deserialize_compact", lambda: jws.deserialize_compact(token, key, **js)),
